@@ -502,6 +502,7 @@ type c13Run struct {
 }
 
 func runC13(c *ev.Ctx) {
+	defer os.RemoveAll(fmt.Sprintf("/dev/shm/verif-tmp-%d", os.Getpid()))
 	c.Rule = "each case = one report produced by the real tool (built binary on a generated directory, or the three worker functions driven in-package through real channels and the real resultWriter): process terminates with exit 0; first line equals the scale's header; multiset of row names == multiset of .bin/.dat base names (decoys get no row, duplicates by name allowed); every row has the header's column count; every value equals (to %0.6f) the library's P/Q for the test and parameter parsed from that column's header label. Varied: s in {1,2,7,40}, nested dirs, directories whose own names end in .bin/.dat, .dat, decoys, duplicate base names, file names with spaces / % / unicode / leading dot, -n in {1,2,3,8,16,64}, flag order and spelling, relative paths, a report path that already holds an older longer file, GOMAXPROCS 1/4/16, four process environments (inherited, minimal, Turkish locale + unusable TMPDIR/HOME + GOGC=1, TMPDIR on another file system), strace-delayed writes to the report, -race build. non-trivial = a report with >= 1 row whose values were all compared; distinct = distinct (driver, scale, directory seed, -n, GOMAXPROCS, race, strace)"
 	c.Assumptions = []string{"the library's own functions are the reference for the values (C01-C05 decide whether those are right)", "header labels are parsed by test name and m=/k=/d= parameter"}
 	seed := uint64(c.Seed)
@@ -945,6 +946,7 @@ func evalC20(cs c20Case, i int, work, bin, binRace, det string) (probs []string,
 }
 
 func runC20(c *ev.Ctx) {
+	defer os.RemoveAll(fmt.Sprintf("/dev/shm/verif-tmp-%d", os.Getpid()))
 	c.Rule = "each case = one run of the built rdgen in a fresh scratch working directory: exit 0; the set of files under the requested output directory (default target/data) is exactly random0.bin..random(s-1).bin plus whatever was there before (unchanged); every size is n/8; contents pairwise different (n >= 256 bits); nothing created elsewhere under the working directory; for the supported sizes rddetector accepts the directory as s samples of n bits. Varied: s in {1..40,64,300}, n in {8,64,20000,10^6,98760,2^18,2^18+8,3*2^18,2^20,2^20-8,10^8}, -o absent / relative / ./a/b/c / absolute / pre-existing with unrelated files / trailing slash / %, spaces, unicode, leading dash / a symbolic link (relative and absolute target) / a directory already used by an earlier rdgen run with longer, shorter or equal samples, four process environments, 1/2/16 CPUs via taskset, GOMAXPROCS 1/16, strace-delayed write/openat, -race build. non-trivial = every run (each has its own post-state); distinct = distinct configuration"
 	c.Assumptions = []string{"file-system post-state is read after the process exited"}
 	seed := uint64(c.Seed)
